@@ -313,7 +313,7 @@ class XYContainer(IndexedContainer):
             matrix_type=matrix_type,
             err_val=err_val,
             relative=relative,
-            reference=lambda: self._get_error_reference(axis),
+            reference=lambda: self._get_error_reference(_axis),
         )
         _err.check_cov_mat_symmetry()
         _name = self._add_error_object(name=name, error_object=_err, axis=_axis)
